@@ -323,7 +323,7 @@ def correspondence(ctx):
 REF = 512
 
 
-def stream_oracle(ctx, img, family, rng, fails, budget_pokes=2):
+def stream_oracle(ctx, img, family, rng, fails, budget_pokes=2, poke_p=0.2):
     """same bytes, every chunking: verdict equal to the verdict under 512-byte blocks, every retained
     region equal to the stream slice at its offsets, intermediate queries change nothing.
     Appends at most one Failure per image."""
@@ -342,7 +342,7 @@ def stream_oracle(ctx, img, family, rng, fails, budget_pokes=2):
         ctx.evaluations += 1
         ctx.count('search/chunking/' + tag)
         q = None
-        if pokes < budget_pokes and rng.random() < 0.2:
+        if pokes < budget_pokes and rng.random() < poke_p:
             q = insp_impl.poke
             pokes += 1
         mid = []
@@ -454,7 +454,10 @@ def search(ctx, seeds, full=False):
         if s['kind'] == 'wrap':
             wrapper_oracle(ctx, img, fam, fails)
         else:
-            stream_oracle(ctx, img, fam, rng, fails)
+            before = len(fails)
+            stream_oracle(ctx, img, fam, rng, fails, budget_pokes=10 ** 6, poke_p=1.0)
+            if len(fails) == before:
+                stream_oracle(ctx, img, fam, rng, fails, budget_pokes=0)
         if enough():
             break
     # 2. the capture engine alone, exhaustively
@@ -467,7 +470,7 @@ def search(ctx, seeds, full=False):
         imgs = image_stream(ctx, rng, for_search=True)
         for img in imgs:
             ctx.count('search/' + img.tag.split('/')[0])
-            stream_oracle(ctx, img, search_family(ctx, img, rng, full), rng, fails)
+            stream_oracle(ctx, img, search_family(ctx, img, rng, full), rng, fails, budget_pokes=6 if full else 3)
             if enough():
                 break
         for img in rng.sample(imgs, min(len(imgs), 25 if ctx.quick else 120)) + [i for i in imgs if i.tag.startswith('known/')]:
